@@ -67,6 +67,38 @@ func (f *emitFn) GetVariables() []data.Variable {
 	return []data.Variable{node.NewVariable(nil, "x", 0, nil)}
 }
 
+// dump($x): like emit, but arrays are written out element by element
+// ('a' with the length, then the elements, recursively).
+type dumpFn struct{}
+
+func dumpValue(v data.Value, depth int) {
+	if arr, ok := v.(*data.ArrayValue); ok && depth < 4 {
+		Log = append(Log, Obs{Kind: 'a', I: len(arr.List)})
+		for _, z := range arr.List {
+			if z == nil {
+				Log = append(Log, Obs{Kind: 'n'})
+				continue
+			}
+			dumpValue(z.Value, depth+1)
+		}
+		return
+	}
+	Log = append(Log, observe(v))
+}
+
+func (f *dumpFn) Call(ctx data.Context) (data.GetValue, data.Control) {
+	v, _ := ctx.GetIndexValue(0)
+	dumpValue(v, 0)
+	return data.NewNullValue(), nil
+}
+func (f *dumpFn) GetName() string { return "dump" }
+func (f *dumpFn) GetParams() []data.GetValue {
+	return []data.GetValue{node.NewParameter(nil, "x", 0, nil, nil)}
+}
+func (f *dumpFn) GetVariables() []data.Variable {
+	return []data.Variable{node.NewVariable(nil, "x", 0, nil)}
+}
+
 type markFn struct{}
 
 func (f *markFn) Call(ctx data.Context) (data.GetValue, data.Control) {
@@ -103,6 +135,7 @@ func Compile(src string) *Script {
 	vm := runtime.NewVM(p)
 	vm.AddFunc(&emitFn{})
 	vm.AddFunc(&markFn{})
+	vm.AddFunc(&dumpFn{})
 	// Throwable / Exception as registered by std.Load (package std itself is not imported:
 	// it drags the database drivers into the SSA program)
 	vm.AddInterface(exception.NewThrowableInterface())
